@@ -6,7 +6,7 @@ ID = "C02"
 THEOREM_FILE = "Properties/C02.v"
 COQ_PROP_OK = "(fun c => C02_ok (s_complete (fst c)) (snd c))"
 RULE = ("seeded whole-system runs ending by a shutdown command at a random position of a pause/resume/save history (incl. while paused, right after a pause request, back to back), "
-        "by the uptime limit, or by a KeyboardInterrupt at a random control tick; random step/training/hook durations; random and PCT schedules. Checked per run: launch() returned, no deadlock, "
+        "by the uptime limit, or by a KeyboardInterrupt at a random control tick or before a random synchronisation operation of the control loop (anywhere but in the worker-pool section of try_pause and inside a state save); random step/training/hook durations; random and PCT schedules. Checked per run: launch() returned, no deadlock, "
         "both threads exited, final state after the last callback, clock running at scale 1, and a pause attempt fails only if a callback was still in flight when its timeout fired. "
         "30% of the runs ended by a command or the uptime limit get a keyboard interrupt in the middle of that shutdown. Non-trivial = the shutdown (or interrupt / uptime) arrived while the system was paused or a pause was in flight; distinct = canonical JSON.")
 TRUSTED = B.TRUSTED_SYS
@@ -31,9 +31,12 @@ def gen_one(rng, seed):
         sp["time_scale"] = rng.choice([1.0, 2.0, 0.5])
     else:
         sp["cmds"] = B.gen_cmds(rng, ["pause", "resume", "save"], shutdown=False)
-        sp["interrupt_at"] = rng.randint(1, 25)
+        if rng.random() < 0.5:
+            sp["interrupt_at"] = rng.randint(1, 25)          # at a tick boundary
+        else:
+            sp["interrupt_at_op"] = rng.randint(1, 300)      # before any synchronisation operation of the control loop
         sp["cmds"] += [["sleep", 0.5], ["shutdown", "retry"]]
-    if "interrupt_at" not in sp and rng.random() < 0.3:
+    if "interrupt_at" not in sp and "interrupt_at_op" not in sp and rng.random() < 0.3:
         # a Ctrl-C that lands while the shutdown requested by a command / the uptime limit is in progress: before the k-th
         # synchronisation operation of ControlThread.shutdown()
         sp["interrupt_in_shutdown"] = rng.randint(0, 3)
